@@ -12,13 +12,15 @@ CHECK = dict(
     units=[
         dict(name="profiledb", dir="internal/profiledb", src="C14/profiledb", runs=[
             dict(name="statemachine", run="^TestVerifC14StateMachine$", quick=3000, thorough=3000000, shards_thorough=12),
-            dict(name="concurrent", run="^TestVerifC14Concurrent$", quick=80, thorough=4000, shards_thorough=4),
-            dict(name="concurrent-race", run="^TestVerifC14Concurrent$", quick=40, thorough=1000, shards_thorough=2, race=True),
+            dict(name="concurrent", run="^TestVerifC14Concurrent$", quick=60, thorough=4000, shards_thorough=4),
+            dict(name="concurrent-race", run="^TestVerifC14Concurrent$", quick=30, thorough=1000, shards_thorough=2, race=True),
         ]),
         dict(name="roundtrip", dir="internal/profiledb", src="C14/roundtrip", runs=[
             dict(name="roundtrip", run="^TestVerifC14rtRoundTrip$", quick=2000, thorough=90000, shards_thorough=6),
             dict(name="restart", run="^TestVerifC14rtRestart$", quick=700, thorough=40000, shards_thorough=8),
             dict(name="kill", run="^TestVerifC14rtKill$", quick=80, thorough=2400, shards_thorough=4),
+            dict(name="rt-concurrent", run="^TestVerifC14rtConcurrent$", quick=60, thorough=2000, shards_thorough=4),
+            dict(name="rt-concurrent-race", run="^TestVerifC14rtConcurrent$", quick=30, thorough=600, shards_thorough=2, race=True),
         ]),
     ],
 )
